@@ -1,6 +1,6 @@
 (** * C16 — dependency diagnostics (cycles, scope mismatches) are exact and stable.
     Statements only. *)
-From PLS Require Import Check.C16 Proofs.Basics Proofs.Cycles.
+From PLS Require Import Check.C16 Proofs.Basics Proofs.Cycles Proofs.CyclesComplete.
 
 (** a scope-mismatch warning on fixture F about dependency D is issued only if D is the
     definition resolution selects for F's file and is narrower than F ... *)
@@ -62,8 +62,34 @@ Theorem C16_cycles_sound :
 Proof. exact cycles_cold_sound. Qed.
 Print Assumptions C16_cycles_sound.
 
-(** NOT proved (partial): that every cyclic strongly connected component carries a
-    report ([cycles_ok]'s second conjunct).  It is evaluated on the implementation's
-    and the model's answers for every generated graph. *)
+(** every definition that lies on a dependency cycle — it requests a name whose selected
+    definition [y] leads, through any number of selected dependencies, back to it — has a
+    reported cycle whose fixture lies in its strongly connected component: each one
+    reaches the other.  Same generality as above: any index with unique (file, line,
+    name) keys, any number of definitions, any graph shape, no bound on depth. *)
+Theorem C16_cycles_complete :
+  forall dk roots s, keys_unique s ->
+    forall d y, dep_edge dk roots s d y -> dep_reach dk roots s y d ->
+      exists c, In c (cycles_cold dk roots s) /\
+                dep_reach dk roots s d (cy_fixture c) /\ dep_reach dk roots s (cy_fixture c) d.
+Proof. exact cycles_cold_complete_spec. Qed.
+Print Assumptions C16_cycles_complete.
+
+(** the premises are met by a concrete state: the self-requesting fixture without a parent *)
+Definition lonely_defs : list fdef := Eval vm_compute in defs lonely_self.
+Example C16_cycles_complete_nonvacuous :
+  exists d, dep_edge [] [] lonely_self d d /\ keys_unique lonely_self.
+Proof.
+  assert (E : defs lonely_self = lonely_defs) by (vm_compute; reflexivity).
+  exists (hd (mk_fdef "" [] 0 0 0 0 None None false false [] 0 None false) lonely_defs). split.
+  - split; [rewrite E; now left|]. exists "cli". split; [now left|vm_compute; reflexivity].
+  - intros a b Ha Hb _. rewrite E in Ha, Hb. destruct Ha as [<-|[]]. destruct Hb as [<-|[]]. reflexivity.
+Qed.
+
 Check C16_cycles_sound :
   forall dk roots s, keys_unique s -> Forall (fun c => cycle_sound dk roots s c = true) (cycles_cold dk roots s).
+Check C16_cycles_complete :
+  forall dk roots s, keys_unique s ->
+    forall d y, dep_edge dk roots s d y -> dep_reach dk roots s y d ->
+      exists c, In c (cycles_cold dk roots s) /\
+                dep_reach dk roots s d (cy_fixture c) /\ dep_reach dk roots s (cy_fixture c) d.
